@@ -1,4 +1,4 @@
-import MgpuModel.C19
+import MgpuModel.C19_Base
 /-! Helper lemmas for C19: byte memory, chunk writes that agree with one source image. -/
 namespace C19
 
